@@ -428,7 +428,25 @@ func (e *MetaExecutor) CreateIterator(nodeID uint64, shardIDs []uint64, ctx cont
 		return nil, nil
 	}
 
-	return query.NewReaderIterator(ctx, &streamEndReader{ReadCloser: conn}, resp.Type, resp.Stats), nil
+	return query.NewReaderIterator(ctx, &streamEndReader{ReadCloser: &readTimeoutConn{Conn: conn, timeout: e.timeout}}, resp.Type, resp.Stats), nil
+}
+
+// readTimeoutConn renews the read deadline before every read of a response stream. The
+// deadline set while waiting for the response header is absolute: left in place it ends a
+// stream that is still being delivered once the timeout has passed since the header, for
+// example while the caller waits for another node to time out before it starts reading.
+type readTimeoutConn struct {
+	net.Conn
+	timeout time.Duration
+}
+
+func (c *readTimeoutConn) Read(p []byte) (int, error) {
+	if c.timeout > 0 {
+		if err := c.Conn.SetReadDeadline(time.Now().Add(c.timeout)); err != nil {
+			return 0, err
+		}
+	}
+	return c.Conn.Read(p)
 }
 
 // traceFramePrefix is how the frame that ends an iterator stream begins: the serving node
@@ -536,7 +554,7 @@ func (e *MetaExecutor) ReadFilter(nodeID uint64, shardIDs []uint64, ctx context.
 		return nil, err
 	}
 
-	return reads.NewResultSetStreamReader(NewStoreStreamReceiver(conn)), nil
+	return reads.NewResultSetStreamReader(NewStoreStreamReceiver(&readTimeoutConn{Conn: conn, timeout: e.timeout})), nil
 }
 
 func (e *MetaExecutor) ReadGroup(nodeID uint64, shardIDs []uint64, ctx context.Context, req *datatypes.ReadGroupRequest) (reads.GroupResultSet, error) {
@@ -569,7 +587,7 @@ func (e *MetaExecutor) ReadGroup(nodeID uint64, shardIDs []uint64, ctx context.C
 		return nil, err
 	}
 
-	return reads.NewGroupResultSetStreamReader(NewStoreStreamReceiver(conn)), nil
+	return reads.NewGroupResultSetStreamReader(NewStoreStreamReceiver(&readTimeoutConn{Conn: conn, timeout: e.timeout})), nil
 }
 
 // dial returns a connection to a single node in the cluster.
